@@ -477,6 +477,7 @@ pub fn translate(repo: &Path, out: &mut Out) {
             eq: "beq",
             take_default: "(@nil N)",
             mcalls: vec![],
+            mmethods: vec![],
             display: vec![],
         };
         let st = &f.block.stmts;
@@ -510,6 +511,55 @@ pub fn translate(repo: &Path, out: &mut Out) {
         }
     } else {
         out.miss("layer_env.rs: LayerEnvDelta::apply");
+    }
+
+    // ---- 9. LayerEnvDelta::write_to_env_dir and LayerEnv::write_to_layer_dir in the file-system monad (imp.rs)
+    {
+        let cfg = crate::imp::Config {
+            methods: vec![
+                ("as_ref", "{r}"),
+                ("clone", "{r}"),
+                ("as_bytes", "{r}"),
+                ("join", "({r} ++ [{0}])"),
+                ("is_empty", "(is_empty {r})"),
+                ("exists", "(exists_ {r} st_)"),
+            ],
+            mutators: vec![("push", "({r} ++ {0})")],
+            state_calls: vec![],
+            calls: vec![],
+            variants: vec![("Override", "Override"), ("Default", "Default"), ("Append", "Append"), ("Prepend", "Prepend"), ("Delimiter", "Delim")],
+            eq: "beq",
+            take_default: "(@nil N)",
+            mcalls: vec![
+                ("fs::remove_dir_all", "(remove_dir_all {0})"),
+                ("fs::create_dir_all", "(create_dir_all (S (length {0})) {0})"),
+                ("fs::write", "(write_file {0} (Raw {1}))"),
+            ],
+            mmethods: vec![("write_to_env_dir", "(gen_write_to_env_dir {r} {0})")],
+            display: vec![],
+        };
+        let mut g = String::from("From LV Require Import Base FS LayerEnv LayerShared ImpPrims.\nOpen Scope N_scope.\n\n");
+        if let Some(f) = find_impl_fn(&file, "LayerEnvDelta", None, "write_to_env_dir") {
+            let mut tr = crate::imp::Tr::new(&cfg);
+            let term = tr.mstmts(&f.block.stmts);
+            for m in &tr.missing {
+                out.miss(format!("layer_env.rs: write_to_env_dir: {m}"));
+            }
+            let _ = writeln!(g, "(* LayerEnvDelta::write_to_env_dir; self.entries in BTreeMap order *)\nDefinition gen_write_to_env_dir (self_entries : list ((beh * bytes) * bytes)) (path : path) : M unit :=\n{}.", crate::imp::indent(&term, 2));
+        } else {
+            out.miss("layer_env.rs: fn write_to_env_dir");
+        }
+        if let Some(f) = find_impl_fn(&file, "LayerEnv", None, "write_to_layer_dir") {
+            let mut tr = crate::imp::Tr::new(&cfg);
+            let term = tr.mstmts(&f.block.stmts);
+            for m in &tr.missing {
+                out.miss(format!("layer_env.rs: write_to_layer_dir: {m}"));
+            }
+            let _ = writeln!(g, "(* LayerEnv::write_to_layer_dir; the fields are the deltas' entry lists, self.process in map order *)\nDefinition gen_write_to_layer_dir (self_all self_build self_launch : list ((beh * bytes) * bytes)) (self_process : list (bytes * list ((beh * bytes) * bytes))) (layer_dir : path) : M unit :=\n{}.", crate::imp::indent(&term, 2));
+        } else {
+            out.miss("layer_env.rs: fn write_to_layer_dir");
+        }
+        out.coq("GenLayerEnvImp.v").push_str(&g);
     }
 
     out.coq("GenLayerEnv.v").push_str(&v);
